@@ -191,10 +191,25 @@ func (c *Ctx) intrinsic(st *State, fn *ssa.Function, args []Value) (intrRes, boo
 		return done(nil)
 	}
 	full := fn.String()
-	if v, ok := c.cfg.StubConst[strings.TrimPrefix(full, kanziPrefix+"/")]; ok {
+	if v, ok := c.cfg.StubConst[strings.ReplaceAll(full, kanziPrefix+"/", "")]; ok {
 		// harness-declared cut: the callee is replaced by a constant result (recorded in the evidence)
 		rt := fn.Signature.Results().At(0).Type()
 		return done(tb.Const(typeWidth(rt), v))
+	}
+	for _, sf := range c.cfg.StubFirstByte {
+		if strings.ReplaceAll(full, kanziPrefix+"/", "") == sf || full == sf {
+			// harness-declared abstraction of a content hash: a cheap deterministic function of the content
+			// (its first byte, 0 for empty input) - equal contents still give equal values
+			sl := args[len(args)-1].(*SliceV)
+			rt := fn.Signature.Results().At(0).Type()
+			w := typeWidth(rt)
+			if sl.Len.IsConst() && sl.Len.Val == 0 {
+				return done(tb.Const(w, 0))
+			}
+			arr := c.load(st, sl.Arr).(*SymArr)
+			b := arr.Read(tb, sl.Off)
+			return done(tb.Ite(tb.Eq(sl.Len, tb.Const(64, 0)), tb.Const(w, 0), tb.Zext(b, w)))
+		}
 	}
 	switch full {
 	case "fmt.Sprintf", "fmt.Sprint", "fmt.Sprintln":
